@@ -18,7 +18,8 @@
    - one publication point is assumed to be visited at most once per run (trees, and graphs whose
      revisits are pruned by the loop check): every visit reads the store as it was at the start of
      the run; the updates of a run are applied afterwards;
-   - the random order in which process_collected walks the manifest is the parameter [perm];
+   - the random order in which process_collected walks the manifest is the parameter [perm]
+     (since fix F1/C03 it only determines the order of the stored objects);
    - the cached manifest number / thisUpdate of a stored point are taken to agree with the stored
      manifest (the engine writes them together), so the "stored point is broken" branch of
      check_collected_is_newer is not reachable;
@@ -213,16 +214,17 @@ Definition same (v : version) (st : option stored) : bool :=
 Definition listed (v : version) : list entry := filter e_listed (entries v).
 
 (* the closure given to StoredPoint::update: objects in (permuted) manifest order; the first
-   missing file or hash mismatch aborts, the items of the objects processed so far stay in the
-   processor (ProcessPubPoint::restart is never called) *)
-Inductive walk_res := WDone (items : list item) (children : list cert) | WAbort (leaked : list item).
+   missing file or hash mismatch aborts the update.  What the processor collected up to then is
+   dropped: PubPoint::process calls ProcessPubPoint::restart before it falls back to the stored
+   point (fix F1/C03), and the child tasks collected so far are discarded with the closure. *)
+Inductive walk_res := WDone (items : list item) (children : list cert) | WAbort.
 
 Fixpoint walk (cf : cfg) (p : cert) (pkey : N) (v : version) (chain : list N) (depth : nat)
               (es : list entry) (items : list item) (children : list cert) : walk_res :=
   match es with
   | [] => WDone items children
   | e :: t =>
-      if negb (e_present e) || negb (e_hash_ok e) then WAbort items
+      if negb (e_present e) || negb (e_hash_ok e) then WAbort
       else walk cf p pkey v chain depth t
                 (items ++ entry_items cf p pkey v e) (children ++ entry_children cf p pkey v chain depth e)
   end.
@@ -237,14 +239,14 @@ Inductive point_res :=
 | PAccepted (items : list item) (children : list cert) (update : option stored)
 | PRejected.
 
-(* process_stored (with the items already in the processor) *)
-Definition process_stored (cf : cfg) (w : world) (p : cert) (chain : list N) (depth : nat) (leaked : list item) : point_res :=
+(* process_stored *)
+Definition process_stored (cf : cfg) (w : world) (p : cert) (chain : list N) (depth : nat) : point_res :=
   let pkey := w_pkey w (c_subject p) in
   match w_stored w (c_subject p) with
   | None => PRejected                                            (* "no valid manifest found" *)
   | Some s =>
       if is_ok (validate_stored_manifest cf p pkey (s_version s)) then
-        PAccepted (leaked ++ all_items cf p pkey (s_version s) (s_entries s))
+        PAccepted (all_items cf p pkey (s_version s) (s_entries s))
                   (all_children cf p pkey (s_version s) chain depth (s_entries s)) None
       else PRejected
   end.
@@ -255,15 +257,15 @@ Definition process_point (cf : cfg) (perm : N -> list entry -> list entry) (w : 
   let id := c_subject p in
   let pkey := w_pkey w id in
   match w_collected w id with
-  | None => process_stored cf w p chain depth []
+  | None => process_stored cf w p chain depth
   | Some v =>
-      if negb (m_present v) then process_stored cf w p chain depth []          (* no manifest collected *)
-      else if same v (w_stored w id) then process_stored cf w p chain depth []
-      else if negb (is_ok (validate_collected_manifest cf p pkey v)) then process_stored cf w p chain depth []
-      else if negb (is_newer v (w_stored w id)) then process_stored cf w p chain depth []
+      if negb (m_present v) then process_stored cf w p chain depth          (* no manifest collected *)
+      else if same v (w_stored w id) then process_stored cf w p chain depth
+      else if negb (is_ok (validate_collected_manifest cf p pkey v)) then process_stored cf w p chain depth
+      else if negb (is_newer v (w_stored w id)) then process_stored cf w p chain depth
       else
         match walk cf p pkey v chain depth (perm id (listed v)) [] [] with
-        | WAbort leaked => process_stored cf w p chain depth leaked
+        | WAbort => process_stored cf w p chain depth          (* restart(), then the stored point *)
         | WDone items children =>
             PAccepted items children (Some {| s_version := v; s_entries := perm id (listed v) |})
         end
